@@ -2,7 +2,7 @@
    ancestry; with all validators honest and timely delivery finality keeps advancing."  Model: Bft/Model.v. *)
 From Coq Require Import List NArith Bool Lia.
 From Verif Require Import Common.Util Bft.Tree Bft.Model Bft.Quorum Bft.ProofsTally Bft.ProofsChain Bft.ProofsNode
-  Bft.Safety Bft.ProofsWitness Bft.ProofsFinal.
+  Bft.Safety Bft.ProofsWitness Bft.ProofsFinal Bft.ProofsMonotone Bft.ProofsCommit.
 Import ListNotations.
 Open Scope N_scope.
 
@@ -63,10 +63,31 @@ Theorem import_history_invariants c guard g master bs : 0 < c_L c -> b_num g = 0
   inv c (import_all c guard (init_node g master) bs).
 Proof. intros HL Hg Hv. apply import_all_inv; [exact HL | apply init_inv; exact Hg | exact Hv]. Qed.
 
-(* 3b. finalized only moves forward (_partial: number and chain membership; "the old checkpoint is an ancestor of the
-       new one" additionally needs Accepts + the suffix argument, not assembled): CommitBlock leaves finalized
-       unchanged or sets it to a block found on the committed block's own chain at a number >= the old one's *)
-Theorem finalized_moves_forward_partial guard c r e b packing :
+(* 3b. the single-node clause.  One import step (any block, any guard variant): the new finalized checkpoint has the old
+       one on its chain (descendant-or-equal), finalized stays a stored block, and a block that gets stored by this
+       step has the finalized checkpoint of that moment on its chain (anything else is refused by Accepts). *)
+Theorem finalized_monotone_step c guard nd b : 0 < c_L c -> inv c nd -> fin_ok nd -> valid_child (n_repo nd) b ->
+  let nd' := fst (import guard c nd b) in
+  has_block (n_repo nd') (e_fin (n_eng nd')) (e_fin (n_eng nd)) = true /\ fin_ok nd' /\
+  (known (n_repo nd) (b_id b) = false -> known (n_repo nd') (b_id b) = true ->
+   has_block (n_repo nd') (b_id b) (e_fin (n_eng nd)) = true).
+Proof. intros HL. exact (import_monotone c HL guard nd b). Qed.
+
+(* along any import history from genesis: every finalized value has its predecessor on its chain *)
+Theorem finalized_monotone c guard g master bs : 0 < c_L c -> b_num g = 0 ->
+  (forall nd b, inv c nd -> In b bs -> valid_child (n_repo nd) b) ->
+  monotone_from (b_id g) (fin_trace c guard (init_node g master) bs).
+Proof.
+  intros HL Hg Hv.
+  exact (finalized_monotone_lemma c HL guard bs (init_node g master) (init_inv c g master Hg) (init_fin_ok g master) Hv).
+Qed.
+
+(* ... and no such import fails in CommitBlock (C04's commit_block_total seen from C03: a block descending from
+   finalized is importable) *)
+Theorem accepted_block_imports_without_error : commit_block_total_statement true.
+Proof. exact commit_block_total_lemma. Qed.
+
+Theorem finalized_moves_forward guard c r e b packing :
   let e' := fst (commit_block guard c r e b packing) in
   e_fin e' = e_fin e \/
   exists x, In x (chain_of r (b_id b)) /\ e_fin e' = b_id x /\ idnum (e_fin e) <= b_num x.
@@ -100,6 +121,9 @@ Print Assumptions committed_implies_justified.
 Print Assumptions quality_monotone.
 Print Assumptions justified_monotone.
 Print Assumptions import_history_invariants.
-Print Assumptions finalized_moves_forward_partial.
+Print Assumptions finalized_monotone_step.
+Print Assumptions finalized_monotone.
+Print Assumptions accepted_block_imports_without_error.
+Print Assumptions finalized_moves_forward.
 Print Assumptions bft_safety_without_premise_refuted.
 Print Assumptions f4_needs_tie_switch.
